@@ -269,6 +269,180 @@ theorem rx_burst_not_delivered (s : Sched) (tn fn : Nat) (ts : Ts) (L : Layout) 
   obtain ⟨hok, hp, _⟩ := real_layout_ok hL hne
   exact handleRxBurst_idle s tn fn ts L hlen hget hlay hinit hok hp f hf d hd
 
+/-! ## every history -/
+
+/-- one call of the scheduler API with arguments the property speaks about (timeslot 0..7,
+    a combination that has a real layout on that timeslot, a channel number of the enum)
+    returns and keeps the invariant: every timeslot has an initialised list head and, if it
+    has a layout, a real one with exactly the channel states of its mask -/
+theorem step_keeps_inv (s : Sched) (h : TrxSched.Inv s) (op : Op) (hop : OpOk op) :
+    ∃ s', stepOp s op = .ok s' ∧ TrxSched.Inv s' := by
+  cases op with
+  | cfg tn c =>
+    obtain ⟨htn, L, hl, hne⟩ := hop
+    have hinit : ∀ ts, s.ts[tn]? = some (some ts) → ts.lchansInit = true := fun ts hts => (h.2 tn ts hts).1
+    have hc := configure_ts_states s tn c h.1 htn hinit
+    rw [hl] at hc
+    obtain ⟨ts', evs, h1, h2, h3, h4, _⟩ := hc
+    refine ⟨setTs s tn (some ts'), by simp only [stepOp, h1, Except.map], inv_setTs s tn _ h (fun ts hts => ?_)⟩
+    cases hts
+    exact ⟨h3, Or.inr ⟨L, (layoutForVal_some c tn L hl).1, hne, h2, h4⟩⟩
+  | del tn =>
+    obtain ⟨s', evs, h1, h2⟩ := delTs_inv s h tn hop
+    exact ⟨s', by simp only [stepOp, h1, Except.map], h2⟩
+  | rts tn =>
+    obtain ⟨o, hg, _, ho⟩ := inv_get s h tn hop
+    cases o with
+    | none => exact ⟨s, by simp only [stepOp, resetTs, hg, bind, Except.bind, pure, Except.pure, Except.map], h⟩
+    | some ts =>
+      obtain ⟨ts', hc, h1, h2, _, _⟩ := clearTs_ok ts (ho ts rfl).1
+      refine ⟨setTs s tn (some ts'), by simp only [stepOp, resetTs, hg, bind, Except.bind, hc, pure, Except.pure,
+        Except.map], inv_setTs s tn _ h (fun t ht => ?_)⟩
+      cases ht
+      exact ⟨h2, Or.inl h1⟩
+  | rst =>
+    obtain ⟨s', evs, h1, h2⟩ := delAll_inv (List.range TRX_TS_COUNT) (fun tn htn => List.mem_range.1 htn) s [] h
+    exact ⟨s', by simp only [stepOp, resetAll, h1, Except.map], h2⟩
+  | act tn ch =>
+    obtain ⟨htn, hch⟩ := hop
+    obtain ⟨o, hg, _, ho⟩ := inv_get s h tn htn
+    cases o with
+    | none => exact ⟨s, by simp only [stepOp, hg, bind, Except.bind, pure, Except.pure], h⟩
+    | some ts =>
+      have hti := ho ts rfl
+      have hnd : ¬ ch > L1SCHED_CHAN_MAX := by omega
+      obtain ⟨idx, lay, ini, lch⟩ := ts
+      have hi : ini = true := hti.1
+      subst hi
+      cases hf : lch.find? (fun l => l.type == ch) with
+      | none =>
+        exact ⟨setTs s tn (some ⟨idx, lay, true, lch⟩), by simp only [stepOp, hg, bind, Except.bind, activateLchan,
+          hnd, if_false, findLchan, Bool.not_true, Bool.false_eq_true, hf, pure, Except.pure],
+          inv_setTs s tn _ h (fun t ht => by cases ht; exact hti)⟩
+      | some l =>
+        by_cases ha : l.active = true
+        · exact ⟨setTs s tn (some ⟨idx, lay, true, lch⟩), by simp only [stepOp, hg, bind, Except.bind, activateLchan,
+            hnd, if_false, findLchan, Bool.not_true, Bool.false_eq_true, hf, ha, if_true, pure, Except.pure],
+            inv_setTs s tn _ h (fun t ht => by cases ht; exact hti)⟩
+        · exact ⟨setTs s tn (some ⟨idx, lay, true, updFirst ch (fun l => { l with active := true }) lch⟩),
+            by simp only [stepOp, hg, bind, Except.bind, activateLchan, hnd, if_false,
+              findLchan, Bool.not_true, Bool.false_eq_true, hf, ha, pure, Except.pure],
+            inv_setTs s tn _ h (fun t ht => by
+              cases ht; exact tsInv_updFirst ⟨idx, lay, true, lch⟩ hti ch _ (fun _ => rfl))⟩
+  | deact tn ch =>
+    obtain ⟨o, hg, _, ho⟩ := inv_get s h tn hop
+    cases o with
+    | none => exact ⟨s, by simp only [stepOp, hg, bind, Except.bind, pure, Except.pure], h⟩
+    | some ts =>
+      have hti := ho ts rfl
+      obtain ⟨idx, lay, ini, lch⟩ := ts
+      have hi : ini = true := hti.1
+      subst hi
+      cases hf : lch.find? (fun l => l.type == ch) with
+      | none =>
+        exact ⟨setTs s tn (some ⟨idx, lay, true, lch⟩), by simp only [stepOp, hg, bind, Except.bind, deactivateLchan,
+          findLchan, Bool.not_true, Bool.false_eq_true, if_false, hf, pure, Except.pure],
+          inv_setTs s tn _ h (fun t ht => by cases ht; exact hti)⟩
+      | some l =>
+        by_cases ha : l.active = true
+        · exact ⟨setTs s tn (some ⟨idx, lay, true,
+              updFirst ch (fun l => { (resetLchan l) with active := false }) lch⟩),
+            by simp only [stepOp, hg, bind, Except.bind, deactivateLchan,
+              findLchan, Bool.not_true, Bool.false_eq_true, if_false, hf, ha, pure, Except.pure],
+            inv_setTs s tn _ h (fun t ht => by
+              cases ht; exact tsInv_updFirst ⟨idx, lay, true, lch⟩ hti ch _ (fun _ => rfl))⟩
+        · exact ⟨setTs s tn (some ⟨idx, lay, true, lch⟩), by simp only [stepOp, hg, bind, Except.bind,
+            deactivateLchan, findLchan, Bool.not_true, Bool.false_eq_true, if_false, hf, ha, Bool.not_false, if_true,
+            pure, Except.pure],
+            inv_setTs s tn _ h (fun t ht => by cases ht; exact hti)⟩
+  | rx tn fn =>
+    obtain ⟨o, hg, hget, ho⟩ := inv_get s h tn hop
+    have hlt : tn < s.ts.length := by rw [h.1]; exact hop
+    cases o with
+    | none => exact ⟨s, by simp only [stepOp, handleRxBurst, hg, bind, Except.bind, pure, Except.pure, Except.map], h⟩
+    | some ts =>
+      have hti := ho ts rfl
+      rcases hti.2 with hn | ⟨L, hL, hne, hlay, _⟩
+      · exact ⟨s, by simp only [stepOp, handleRxBurst, hg, bind, Except.bind, hn, pure, Except.pure, Except.map], h⟩
+      · have hget' : s.ts[tn] = some ts := by
+          rw [List.getElem?_eq_getElem hlt] at hget; exact Option.some.inj hget
+        obtain ⟨f, r, _, hr, _, hstep⟩ := rx_lookup_in_table s tn fn ts L hL hne hlt hget' hlay hti.1
+        refine ⟨r.sched, by simp only [stepOp, hr, Except.map], ?_⟩
+        rcases hstep with he | ⟨td, he⟩
+        · rw [he]; exact h
+        · rw [he]
+          exact inv_setTs s tn _ h (fun t ht => by
+            cases ht; exact tsInv_updFirst ts hti _ _ (fun _ => rfl))
+  | tx tn fn =>
+    obtain ⟨o, hg, hget, ho⟩ := inv_get s h tn hop
+    have hlt : tn < s.ts.length := by rw [h.1]; exact hop
+    refine ⟨s, ?_, h⟩
+    cases o with
+    | none => simp only [stepOp, pullBurst, hg, bind, Except.bind, pure, Except.pure, Except.map]
+    | some ts =>
+      have hti := ho ts rfl
+      rcases hti.2 with hn | ⟨L, hL, hne, hlay, _⟩
+      · simp only [stepOp, pullBurst, hg, bind, Except.bind, hn, pure, Except.pure, Except.map]
+      · have hget' : s.ts[tn] = some ts := by
+          rw [List.getElem?_eq_getElem hlt] at hget; exact Option.some.inj hget
+        obtain ⟨f, d, _, _, hr⟩ := tx_lookup_in_table s tn fn ts L hL hne hlt hget' hlay hti.1
+        simp only [stepOp, hr, Except.map]
+  | probe tn fn =>
+    obtain ⟨o, hg, hget, ho⟩ := inv_get s h tn hop
+    have hlt : tn < s.ts.length := by rw [h.1]; exact hop
+    refine ⟨s, ?_, h⟩
+    cases o with
+    | none => simp only [stepOp, rxProbe, hg, bind, Except.bind, pure, Except.pure, Except.map]
+    | some ts =>
+      have hti := ho ts rfl
+      rcases hti.2 with hn | ⟨L, hL, hne, hlay, _⟩
+      · simp only [stepOp, rxProbe, hg, bind, Except.bind, hn, pure, Except.pure, Except.map]
+      · have hget' : s.ts[tn] = some ts := by
+          rw [List.getElem?_eq_getElem hlt] at hget; exact Option.some.inj hget
+        obtain ⟨r, hr⟩ := probe_lookup_in_table s tn fn ts L hL hne hlt hget' hlay hti.1
+        simp only [stepOp, hr, Except.map]
+
+/-- **For every history** of scheduler calls from `l1sched_alloc` on — configure (with
+    combinations that have a real layout on the timeslot), reset, delete, activate,
+    deactivate, received bursts, pulled bursts and probes with any frame numbers, in any
+    order — no call leaves defined behaviour: in particular no frame lookup leaves a table. -/
+theorem history_safe (ops : List Op) (hops : ∀ op ∈ ops, OpOk op) :
+    ∀ s, TrxSched.Inv s → ∃ s', runOps s ops = .ok s' ∧ TrxSched.Inv s' := by
+  induction ops with
+  | nil => intro s h; exact ⟨s, rfl, h⟩
+  | cons op rest ih =>
+    intro s h
+    obtain ⟨s1, h1, hi1⟩ := step_keeps_inv s h op (hops op (by simp))
+    obtain ⟨s2, h2, hi2⟩ := ih (fun o ho => hops o (by simp [ho])) s1 hi1
+    exact ⟨s2, by simp only [runOps, h1, h2], hi2⟩
+
+/-- … and in every state such a history reaches, every timeslot that has a layout has a
+    channel state for every channel any frame of the layout uses, for every frame number
+    (IDLE excepted), and no channel state outside the layout's mask -/
+theorem reachable_channels_have_state (ops : List Op) (hops : ∀ op ∈ ops, OpOk op) (s' : Sched)
+    (hrun : runOps initSched ops = .ok s') (tn : Nat) (ts : Ts) (hts : s'.ts[tn]? = some (some ts))
+    (L : Layout) (hlay : ts.layout = some L) :
+    L ∈ layouts ∧ L.config ≠ .NONE ∧
+    (∀ l ∈ ts.lchans, l.type < L1SCHED_CHAN_MAX ∧ L.lchanMask.testBit l.type = true) ∧
+    ∀ fn f, lookup L fn = .ok f →
+      (f.dlChan ≠ .IDLE → ∃ l ∈ ts.lchans, l.type = f.dlChan.val) ∧
+      (f.ulChan ≠ .IDLE → ∃ l ∈ ts.lchans, l.type = f.ulChan.val) := by
+  obtain ⟨s2, h2, hinv⟩ := history_safe ops hops initSched inv_init
+  rw [hrun] at h2
+  cases h2
+  obtain ⟨_, hcase⟩ := hinv.2 tn ts hts
+  rcases hcase with hn | ⟨L', hL, hne, hl', hty⟩
+  · rw [hn] at hlay; cases hlay
+  · rw [hl'] at hlay
+    cases hlay
+    have hmem : ∀ t, (∃ l ∈ ts.lchans, l.type = t) ↔ (t < L1SCHED_CHAN_MAX ∧ L.lchanMask.testBit t = true) := by
+      intro t
+      have : (∃ l ∈ ts.lchans, l.type = t) ↔ t ∈ ts.lchans.map (·.type) := by simp [List.mem_map]
+      rw [this, hty, List.mem_filter, List.mem_range]
+    refine ⟨hL, hne, fun l hl => (hmem l.type).1 ⟨l, hl, rfl⟩, fun fn f hf => ?_⟩
+    obtain ⟨hd, hu⟩ := C11.chans_in_mask L hL hne fn f hf
+    exact ⟨fun hi => (hmem _).2 ⟨lchan_val_lt _, hd hi⟩, fun hi => (hmem _).2 ⟨lchan_val_lt _, hu hi⟩⟩
+
 /-! ## the excluded states, made explicit -/
 
 /-- a first configuration that fails (no layout for this combination and timeslot) leaves a
